@@ -233,3 +233,64 @@ _add(Cond('frame_group_labels_depth1', [(f'i{j}', 'int') for j in range(4)], bod
         functions=['Frame._axis_group_labels_items', 'array_to_groups_and_locations'],
         bounds='4-row frame with a depth-2 index, inner labels symbolic in 0..1 (distinct within each outer label)',
         route='Frame.iter_group_labels_items(1)', timeout=240))
+
+
+# ---------------------------------------------------------------- key KINDS symbolic, two key columns, every block layout
+
+KEY_KINDS = (('int64', (5, 3)), ('<U1', ('b', 'a')), ('float64', (2.5, 0.5)), ('bool', (True, False)))
+
+
+def _lays_for(kinds):
+    out = []
+    for lay in layouts.compositions(len(kinds)):
+        j, ok = 0, True
+        for nd, w in lay:
+            if len(set(kinds[j:j + w])) > 1:
+                ok = False
+            j += w
+        if ok:
+            out.append(lay)
+    return out
+
+
+def body_group_kinds(env, kk, two, k0, k1, k2, **kw):
+    from vf import rt
+    kk, two = concretize(kk, 0, 3), bool(two)
+    sel = [concretize(v, 0, 1) for v in (k0, k1, k2)]
+    tape = [bool(kw[f'tape{i}']) for i in range(3)]
+
+    def run():
+        sf = env.sf
+        from static_frame.core.type_blocks import TypeBlocks
+        n = 3
+        keyvals = [KEY_KINDS[kk][1][s] for s in sel]
+        second = [7, 7, 8]                       # second key column (int): splits the last row off when used
+        payload = [100, 101, 102]
+        cols = [payload, keyvals, second]
+        dts = ['int64', KEY_KINDS[kk][0], 'int64']
+        kinds = [0, 10 + kk, 0]
+        labels = [10, 11, 12]
+        keys = [(keyvals[r], second[r]) for r in range(n)] if two else list(keyvals)
+        order = []
+        for k in keys:
+            if k not in order:
+                order.append(k)
+        order = sorted(order)
+        exp = [[(list(k) if two else k), [labels[i] for i in range(n) if keys[i] == k], [[payload[i], keyvals[i], second[i]] for i in range(n) if keys[i] == k]] for k in order]
+        got = []
+        for lay in _lays_for(kinds):
+            if env.model:
+                env.nondet.install(list(tape))
+            tb = TypeBlocks.from_blocks(layouts.build_blocks_typed(env, cols, dts, lay))
+            f = sf.Frame(tb, index=labels, columns=['p', 'k', 'j'])
+            it = f.iter_group_items(['k', 'j'] if two else 'k')
+            got.append([[env.obs(list(g) if two else g), env.obs(list(sub.index.values)), env.obs(sub.values.tolist())] for g, sub in it])
+        return got, [exp] * len(got)
+    return rt.untraced(run)
+
+
+_add(Cond('frame_group_key_kinds_all_layouts', [('kk', 'int'), ('two', 'bool'), ('k0', 'int'), ('k1', 'int'), ('k2', 'int')], body_group_kinds, tape=3,
+        ranges={'kk': (0, 3), 'k0': (0, 1), 'k1': (0, 1), 'k2': (0, 1)},
+        functions=['Frame._axis_group_loc_items'],
+        bounds='3-row frame (payload, key, second int key); the KIND of the key column symbolic over (int64, str, float64, bool), its values symbolic (two values per kind), one key column or the pair (symbolic); every block layout that can hold the kinds; tie tape for non-stable sorts',
+        route='Frame.iter_group_items(key | [key, second]): partition, constant key (value and type), ascending key order, row order and whole rows kept', timeout=400))
